@@ -53,7 +53,7 @@ type c18nCase struct {
 }
 
 func genC18Nodes(t *rapid.T) interface{} {
-	c := &c18nCase{Proxy: rapid.SampledFrom([]bool{false, false, false, true}).Draw(t, "proxy")}
+	c := &c18nCase{Proxy: rapid.IntRange(0, 99).Draw(t, "proxyPct") >= 70}
 	n := rapid.IntRange(4, 16).Draw(t, "nsteps")
 	c.Steps = append(c.Steps, c18nStep{Kind: "lwrite", API: "brain", Op: "create", K: 0})
 	for i := 1; i < n; i++ {
@@ -77,6 +77,13 @@ func genC18Nodes(t *rapid.T) interface{} {
 			s.Kind = "status"
 		}
 		c.Steps = append(c.Steps, s)
+	}
+	if c.Proxy {
+		// a follower with the proxy on hands transactions to the leader without looking inside: every unsupported
+		// shape is worth sending there
+		for i := 0; i < rapid.IntRange(2, 6).Draw(t, "nhostile"); i++ {
+			c.Steps = append(c.Steps, c18nStep{Kind: "fhostile", API: "etcd", K: DrawIntn(t, 4, "hkey"), U: DrawIntn(t, len(c16Unsupported), "hu")})
+		}
 	}
 	if rapid.SampledFrom([]bool{false, false, true}).Draw(t, "leaderDown") {
 		c.Steps = append(c.Steps, c18nStep{Kind: "down"})
